@@ -1,18 +1,16 @@
-SPECIFICATION FairSpec
+SPECIFICATION Spec
 CONSTANTS
-  K = 4
+  K = 3
   SizeLimit = 3
-  PeerLimit = 2
+  PeerLimit = 1
   RingCap = 1
   CacheCap = 0
-  Universe <- UC
+  Universe <- UA
   H0 = 1
-  Peers = {1}
+  Peers = {1, 2}
   Fine = FALSE
   UseRing = FALSE
   MaxWritten = 99
 VIEW View
-INVARIANT Inv
-PROPERTY StepProp
-PROPERTY Live
+PROPERTY ReachPeerLimit
 CHECK_DEADLOCK FALSE
